@@ -152,7 +152,10 @@ spec fn emit_body(e: Expression, names: Seq<Seq<char>>, acc: Seq<char>) -> Seq<c
         Expression::LitBool { value, .. } => if value { acc + "true"@ } else { acc + "false"@ },
         Expression::LitObj { fields, .. } => obj_upto(fields@, fields@.len() as int, names, acc + "{"@) + "}"@,
         Expression::LitArr { fields, .. } => arr_upto(fields@, fields@.len() as int, names, acc + "["@) + "]"@,
-        Expression::StaticMember { obj, field_name, .. } => emit(*obj, ExpressionLevel::Member, names, acc) + "."@ + field_name@,
+        // a number literal in object position is parenthesised (`1.a` is not an expression: the `.` continues the number)
+        Expression::StaticMember { obj, field_name, .. } =>
+            if *obj is LitInt || *obj is LitFloat { emit(*obj, ExpressionLevel::Member, names, acc + "("@) + ")"@ + "."@ + field_name@ }
+            else { emit(*obj, ExpressionLevel::Member, names, acc) + "."@ + field_name@ },
         Expression::DynamicMember { obj, field_name, .. } =>
             emit(*field_name, ExpressionLevel::Cond, names, emit(*obj, ExpressionLevel::Member, names, acc) + "["@) + "]"@,
         Expression::FuncCall { func, args, .. } =>
